@@ -319,6 +319,7 @@ class BoundaryTransitions(Sub):
     """every enumerated transition whose gap/overlap touches a day boundary, all zones"""
     name = "boundary_transitions"
     kind = "enum"
+    case_timeout = 900.0
     backends = ("rust",)
     n = {"quick": 0, "thorough": 0}
     shards = {"quick": 4, "thorough": 16}
